@@ -115,15 +115,40 @@ func init() {
 				case k < 6: // control connection failover between events
 					settle()
 					if cc := e.C.ControlConn(); cc != nil {
-						cc.Close("failover")
-						deadline := time.Now().Add(5 * time.Second)
-						for time.Now().Before(deadline) {
-							if nc := e.C.ControlConn(); nc != nil && nc != cc {
-								break
+						// every other time the next fail-over candidates only speak an older protocol version (a node
+						// restarted on an older release): the proxy must refuse them and move on to a usable host
+						downgraded := rnd.Intn(2) == 0
+						if downgraded {
+							for _, ip := range e.IPs {
+								if ip != cc.N.IP {
+									e.C.SetNodeMaxVersion(ip, primitive.ProtocolVersion3)
+								}
 							}
-							time.Sleep(10 * time.Millisecond)
+						}
+						cc.Close("failover")
+						// wait until exactly one registered (control) connection exists, stably
+						deadline := time.Now().Add(5 * time.Second)
+						stable := 0
+						for time.Now().Before(deadline) && stable < 3 {
+							n := 0
+							for _, nd := range e.C.Nodes() {
+								for _, cn := range nd.Conns() {
+									if cn.Registered && !cn.Closed() && cn != cc {
+										n++
+									}
+								}
+							}
+							if n == 1 {
+								stable++
+							} else {
+								stable = 0
+							}
+							time.Sleep(15 * time.Millisecond)
 						}
 						time.Sleep(50 * time.Millisecond)
+						for _, ip := range e.IPs {
+							e.C.SetNodeMaxVersion(ip, 0)
+						}
 						st.Failovers++
 					}
 				default: // backend event
